@@ -585,6 +585,71 @@ def gen_tiny(rng):
     return {"rewards": rewards, "players": players, "transition_list": tl, "final_states": [final]}
 
 
+TINY_PROBS = [F(1, 10 ** 7), F(3, 10 ** 7), F(49, 10 ** 8), F(1, 10 ** 9), F(1, 10 ** 10), F(1, 2 ** 31), F(6, 10 ** 7), F(1, 10 ** 6)]
+
+
+def gen_tiny_branch(rng, nmax=9):
+    """A random stopping game in which some live probabilistic / Player-1 state has an extra successor whose
+    reachability value is positive but tiny (1e-10 .. 1e-6, reported exactly by the first sweep): such a branch is
+    NOT dead and must survive conditioning; it carries rewards so that dropping it is visible."""
+    gd = gen_acy(rng, nmax=nmax) if rng.random() < 0.6 else (gen_cyc(rng, nmax=nmax) or gen_acy(rng, nmax=nmax))
+    g = to_oracle(gd)
+    finals = [f for f in gd["final_states"] if g.absorbing(f)]
+    if not finals:
+        return gd
+    f = finals[0]
+    players, tl, rewards = list(gd["players"]), [list(t) for t in gd["transition_list"]], list(gd["rewards"])
+    sinks = [s for s in range(g.n) if g.absorbing(s) and s not in gd["final_states"]]
+    if not sinks:
+        players.append(PR); rewards.append(F(0)); tl.append([(F(1), len(players) - 1)]); sinks = [len(players) - 1]
+    z = sinks[0]
+    W = oracle.positive_set(g)
+    hosts = [s for s in range(g.n) if s in W and not g.absorbing(s) and players[s] in (PR, P1)]
+    if not hosts:
+        return gd
+    for s in rng.sample(hosts, min(len(hosts), rng.randint(1, 2))):
+        q = rng.choice(TINY_PROBS)
+        t = len(players)
+        players.append(PR); rewards.append(F(rng.randint(1, 40)))
+        tr = [(q, f), (1 - q, z)]
+        if rng.random() < 0.5:
+            tr.reverse()
+        tl.append(tr)
+        if rng.random() < 0.4:          # one more hop in front of the tiny state
+            t2 = len(players)
+            players.append(rng.choice([PR, P1])); rewards.append(F(rng.randint(0, 9)))
+            tl.append([(F(1), t)] if players[-1] == PR else [("a", t)])
+            t = t2
+        if players[s] == PR:
+            share = rng.choice([F(1, 2), F(1, 4), F(1, 10)])
+            new = [(p * (1 - share), x) for p, x in tl[s]]
+            new.insert(rng.randrange(len(new) + 1), (share, t))
+            tl[s] = new
+        else:
+            used = {a for a, _ in tl[s]}
+            lab = [l for l in LABELS if l not in used][0]
+            new = list(tl[s])
+            new.insert(rng.randrange(len(new) + 1), (lab, t))
+            tl[s] = new
+    out = {"rewards": rewards, "players": players, "transition_list": tl, "final_states": list(gd["final_states"])}
+    return renumber_random(rng, out)
+
+
+def gen_init_final(rng, absorbing=True):
+    """The initial state is itself a final state (value 1 by definition)."""
+    gd = gen_acy(rng, nmax=8) if rng.random() < 0.5 else (gen_cyc(rng, nmax=8) or gen_acy(rng, nmax=8))
+    players, tl, rewards = list(gd["players"]), [list(t) for t in gd["transition_list"]], list(gd["rewards"])
+    finals = sorted(set(gd["final_states"]) | {0})
+    if absorbing:
+        owner = rng.choice([PR, PR, P1, P2])
+        players[0] = owner
+        tl[0] = [(F(1), 0)] if owner == PR else [("a", 0)] if rng.random() < 0.5 else [("a", 0), ("b", 0)]
+        rewards[0] = F(0)
+    if rng.random() < 0.3:
+        finals = [0]
+    return {"rewards": rewards, "players": players, "transition_list": tl, "final_states": finals}
+
+
 CLASSES = ["G-ACY", "G-CYC", "G-SLOW", "G-EC", "G-DEAD", "G-TIE", "G-LEX", "G-TINY"]
 
 
@@ -614,6 +679,12 @@ def gen_class(rng, cls, **kw):
         return gen_lex(rng, **kw)
     if cls == "G-TINY":
         return gen_tiny(rng)
+    if cls == "G-TINYB":
+        return gen_tiny_branch(rng, **kw)
+    if cls == "G-INIT0F":
+        return gen_init_final(rng, absorbing=True)
+    if cls == "G-INIT0NF":
+        return gen_init_final(rng, absorbing=False)
     raise KeyError(cls)
 
 
